@@ -75,6 +75,10 @@ def r181_182(ctx):
             ("int", {rstate: 7, is_rs: False, is_int: True},
              [f"np.random.default_rng(seed=rs).integers(low=0, high={high}, size=n, dtype=np.uint32)",
               f"np.random.default_rng(rs).integers(low=0, high={high}, size=n, dtype=np.uint32)"]),
+            # the seed 0 is an integer seed like any other (it is falsy: `if not random_state` would take the unseeded path)
+            ("int 0", {rstate: 0, is_rs: False, is_int: True},
+             [f"np.random.default_rng(seed=rs).integers(low=0, high={high}, size=n, dtype=np.uint32)",
+              f"np.random.default_rng(rs).integers(low=0, high={high}, size=n, dtype=np.uint32)"]),
             ("RandomState", {rstate: "RS", is_rs: True, is_int: False},
              [f"rs.randint(low=0, high={high}, size=n, dtype=np.uint32)"]),
             ("None", {rstate: None, is_rs: False, is_int: False},
